@@ -136,7 +136,7 @@ func batchGen(r *Rng, tier string) Case {
 	n := r.Range(2, 14)
 	countMode := kinesisK && r.Chance(25) // fill up to the 500-record limit with small records
 	if countMode {
-		n = 505
+		n = 560 // enough data adds (5% of the ops are BEGIN/COMMIT markers) to pass the 500-record limit
 	}
 	lsn := uint64(r.Range(0, 3))
 	for i := 0; i < n; i++ {
@@ -170,7 +170,30 @@ func batchGen(r *Rng, tier string) Case {
 // batchMonitor (C16): the idle-age rule reads the batch's modify time; it must move exactly when a
 // record was appended, and the create time never
 func batchMonitor(lines, outs []string, m *Model) []Violation {
+	kinesisKind := len(lines) > 0 && strings.Contains(lines[0], " kinesis:")
 	for i, o := range outs {
+		// C15: the sink's documented hard limits, whatever the code's constants say
+		if kinesisKind {
+			var n, bytes int
+			for _, f := range strings.Fields(o) {
+				if strings.HasPrefix(f, "n=") {
+					n, _ = strconv.Atoi(f[2:])
+				}
+				if strings.HasPrefix(f, "bytes=") {
+					bytes, _ = strconv.Atoi(f[6:])
+				}
+			}
+			if n > 500 || bytes > 5*1024*1024 {
+				return []Violation{{"C15", fmt.Sprintf("a Kinesis batch holds %d records / %d bytes of data plus keys (limits: 500 records, 5 MiB)", n, bytes), ""}}
+			}
+			if strings.HasPrefix(o, "ok ") && i < len(lines) {
+				if w := strings.Fields(lines[i]); len(w) > 6 {
+					if sz, _ := strconv.Atoi(w[6]); sz > 1024*1024 {
+						return []Violation{{"C15", fmt.Sprintf("a record of %d bytes (> 1 MiB) was accepted into a Kinesis batch", sz), ""}}
+					}
+				}
+			}
+		}
 		f := strings.Fields(o)
 		if len(f) < 9 || i >= len(lines) {
 			continue
